@@ -1,9 +1,9 @@
 package checks
 
 import (
-	"encoding/hex"
 	"bytes"
 	"encoding/binary"
+	"encoding/hex"
 	"encoding/json"
 	"fmt"
 	"regexp"
@@ -141,7 +141,7 @@ func runC07(r *mc.Run) {
 		{mkLevel(9, "UpToDate"), mkLevel(7, "OutOfDate"), mkLevel(9, "UpToDate"), mkLevel(8, "UpToDate")}, {mkLevel(6, "Revoked"), mkLevel(9, "UpToDate"), mkLevel(9, "UpToDate"), mkLevel(5, "UpToDate"), mkLevel(8, "UpToDate")},
 		{mkLevel(9, "UpToDate"), mkLevel(9, "UpToDate"), mkLevel(9, "UpToDate"), mkLevel(5, "OutOfDate"), mkLevel(9, "UpToDate"), mkLevel(8, "UpToDate"), mkLevel(4, "UpToDate")},
 	} {
-		for _, mode := range []int{0, 1, 2} {
+		for _, mode := range []int{0, 1, 2, 3, 4, 5} {
 			lsCopy := append([]world.Level(nil), ls...)
 			name := ""
 			for i := range lsCopy {
@@ -150,10 +150,16 @@ func runC07(r *mc.Run) {
 					lsCopy[i].TcbDate = fmt.Sprintf("20%02d-03-01T00:00:00Z", 20+i)
 				case 2:
 					lsCopy[i].TcbDate = fmt.Sprintf("20%02d-03-01T00:00:00Z", 29-i)
+				case 3: // the first listed levels are dated AFTER the verification time (2030), the later ones before it
+					lsCopy[i].TcbDate = fmt.Sprintf("20%02d-03-01T00:00:00Z", 33-2*i)
+				case 4: // alternately after / before the verification time
+					lsCopy[i].TcbDate = fmt.Sprintf("20%02d-03-01T00:00:00Z", 28+5*((i+1)%2))
+				case 5: // every level dated after the verification time
+					lsCopy[i].TcbDate = fmt.Sprintf("20%02d-03-01T00:00:00Z", 40+i)
 				}
 				name += fmt.Sprintf("%d:%s,", *lsCopy[i].Tcb.Isvsvn, lsCopy[i].TcbStatus)
 			}
-			add(fmt.Sprintf("level-order/%sdates=%s", name, []string{"equal", "ascending", "descending"}[mode]), nil, func(e *world.EnclaveIdentity) { e.TcbLevels = lsCopy })
+			add(fmt.Sprintf("level-order/%sdates=%s", name, []string{"equal", "ascending", "descending", "first-ones-after-verification-time", "alternately-after-and-before", "all-after-verification-time"}[mode]), nil, func(e *world.EnclaveIdentity) { e.TcbLevels = lsCopy })
 		}
 	}
 	// long level lists: the first listed level with isvsvn <= the report's decides, however many precede / follow it
